@@ -1305,6 +1305,7 @@ void runC04T(Case& c, Make make) {
   long mult = (load == 1) ? 1 : 32;
   std::atomic<int> forbiddenRan{0};
   std::atomic<int> inlineCapable{0};
+  std::atomic<int> filler{0}; // outlives the pool: plain pool tasks may still be pending when the sets are done
   int me = dsched_tid();
   {
     Gate gate; // declared before the pool: outlives every gate task
@@ -1357,7 +1358,6 @@ void runC04T(Case& c, Make make) {
       }
     } else {
       auto S = make(pool, dispenso::ParentCascadeCancel::kOff);
-      std::atomic<int> filler{0};
       auto establishLoad = [&]() {
         if (n == 0)
           return;
